@@ -289,9 +289,11 @@ func simWorld(rc *kernel.RunCtx) {
 			content = badPool[t.Choose(len(badPool), "bad")]
 		}
 		put(rel, content, base)
-		switch t.Choose(6, "preexisting") {
+		switch t.Choose(7, "preexisting") {
 		case 0: // stale generated file (older than the template when lazy)
 			put(filepath.Join(dir, name+"_templ.go"), "package stale\n", base.Add(-10*time.Second))
+		case 2: // stale generated file with exactly the template's modification time (a checkout, a tar, a COPY)
+			put(filepath.Join(dir, name+"_templ.go"), "package stale\n", base)
 		case 1: // up-to-date generated file, newer than the template: filled in below
 			put(filepath.Join(dir, name+"_templ.go"), "\x00uptodate", base.Add(10*time.Second))
 		}
